@@ -22,6 +22,7 @@ STUBS_ASM = [
     'asm.int / asm.eval: a stand-alone @NAME@ token parses / evaluates to the symbolic integer NAME (CPython literal parsing is not repository code)',
     'str(symbolic int) is a token that asm.int/asm.eval map back to the same value (eval(str(n)) == n)',
     'asm.log_conversion/log_constant/log: no-ops',
+    'module-level tuples / lists of integers: the real sequence; a symbolic index forks on being in range (negative indices included) and selects among the real entries; a bytearray kept in a function default is replaced by the engine\'s byte array',
 ]
 
 
